@@ -66,9 +66,17 @@ thread_local! {
 
 fn c02_check(ctx: &mut Ctx, rs: &RefSentence, variant: &str, route: usize) {
     // the same label vector reached through different histories of the public API
-    let route_name = ["from_raw+boundaries_mut", "predict_then_boundaries_mut", "from_partial_annotation"][route % 3];
+    let route_name = ["from_raw+boundaries_mut", "predict_then_boundaries_mut", "from_partial_annotation", "update_raw_after_text_of_same_shape"][route % 4];
     ctx.count(&format!("sentences_via_{route_name}"), 1);
-    let r = guard(|| match route % 3 {
+    let r = guard(|| match route % 4 {
+        3 => {
+            // the object held another text with the same number of characters and bytes (reversed order)
+            let prev: String = rs.chars.iter().rev().collect();
+            let mut s = vaporetto::Sentence::from_raw(prev).expect("from_raw");
+            s.update_raw(rs.text()).expect("update_raw");
+            apply_annotations(&mut s, rs);
+            observe(&s, false)
+        }
         1 => ROUTE_PREDICTOR.with(|p| {
             let mut s = vaporetto::Sentence::from_raw(rs.text()).expect("from_raw");
             p.predict(&mut s);
@@ -162,6 +170,20 @@ fn c02_check(ctx: &mut Ctx, rs: &RefSentence, variant: &str, route: usize) {
         ctx.violation(
             "C02:tokens_differ_from_reference_partition",
             detail(vec![("route", J::s(route_name)), ("expected", fmt_t(&expect)), ("observed", fmt_t(&obs.tokens))]),
+        );
+        return;
+    }
+    let want_count = expect.len().saturating_sub(1);
+    let want_last = if expect.len() >= 2 { expect.last().map(|t| (t.start, t.end)) } else { None };
+    if obs.count_after_first != Some(want_count) || obs.last_after_first != want_last {
+        ctx.violation(
+            "C02:tokens_reported_by_internal_iteration_after_next_differ",
+            detail(vec![
+                ("expected_count_after_first", J::i(want_count)),
+                ("observed_count_after_first", J::s(format!("{:?}", obs.count_after_first))),
+                ("expected_last_after_first", J::s(format!("{:?}", want_last))),
+                ("observed_last_after_first", J::s(format!("{:?}", obs.last_after_first))),
+            ]),
         );
         return;
     }
@@ -748,6 +770,21 @@ fn valid_string(rng: &mut Rng, f: Fmt) -> String {
 }
 
 fn c05_input(rng: &mut Rng, f: Fmt) -> String {
+    if rng.chance(1, 150) {
+        // one character carrying several hundred tags
+        let n = *rng.pick(&[255usize, 256, 257, 300]);
+        let tags: String = (0..n).map(|i| format!("/t{}", i % 7)).collect();
+        return match f {
+            Fmt::Raw => format!("\u{feff}a{}b", "x".repeat(n)),
+            Fmt::Tok => format!("a{tags} bc"),
+            Fmt::Part => format!("a{tags}|b-c"),
+        };
+    }
+    if rng.chance(1, 40) {
+        // a byte order mark as first character is an ordinary character
+        let rest = valid_string(rng, f);
+        return format!("\u{feff}{rest}");
+    }
     match rng.below(4) {
         0 => text::hostile_string(rng, 24),
         1 => valid_string(rng, f),
